@@ -13,9 +13,10 @@
      rv_load s toks      RiscvSimulation.load_program: (state, error, image)
      rv_err_ok lines e   e is a parser error (syntax, label, odd immediate, duplicate label,
                          directive, data syntax, duplicate variable, unknown variable) whose
-                         line number is in [lines], or the memory address error; [PUncaught ln]
-                         (an exception that is not a parser error) also counts as "of line ln"
-                         here and is excluded separately; PMemSize is the TOY-only error
+                         line number is in [lines], or the memory address error (PMemAddr), or
+                         the memory size error (PMemSize: the data segment would extend past
+                         the address space); [PUncaught ln] (an exception that is not a parser
+                         error) also counts as "of line ln" here and is excluded separately
      itok_wf t           what the tokenizer guarantees about a token record: registers that are
                          present are xN or an ABI name of the table, and the fields of the
                          mnemonic's syntax class are present
@@ -160,7 +161,10 @@ Example assemble_outcomes_ex :
   err_of [(4, RInstr None (BIns (t_b x1 x0 (Some (s "3")) None)))] = Some (POdd 4) /\
   (* more than 4096 instructions: the instruction memory's address error *)
   err_of (map (fun k => (k, RInstr None (BStr 0))) (zrange_from 1 4097)) = Some (PMemAddr 16384) /\
-  err_of (map (fun k => (k, RInstr None (BStr 0))) (zrange_from 1 4096)) = None.
+  err_of (map (fun k => (k, RInstr None (BStr 0))) (zrange_from 1 4096)) = None /\
+  (* a data segment that would end beyond 2^32: the memory size error *)
+  err_of [(1, RDirective 1); (2, RZeroDecl 1 (s "1073741824"))] = Some (PMemSize 1073741824) /\
+  err_of [(1, RDirective 1); (2, RZeroDecl 1 (s "1073737728"))] = None.
 Proof. vm_compute. repeat split; reflexivity. Qed.
 
 (* the records above are what the tokenizer produces; a record without its fields, or with an
